@@ -2,7 +2,7 @@
 # tools/try_seed_wt.sh <worktree with the seeded change applied> <PID> [tier] [extra args]
 # Trial run of a check against another checkout (does not touch /repo, /verif/evidence or /verif/replays).
 V="$(cd "$(dirname "$0")/.." && pwd)"
-WT="$1"; PID="$2"; TIER="${3:-quick}"; shift 3 2>/dev/null || shift 2
+WT="$1"; PID="$2"; TIER="${3:-quick}"; if [ $# -ge 3 ]; then shift 3; else shift 2; fi
 mkdir -p /tmp/seedout/$PID
 cd "$V" && VERIF_REPO="$WT" VERIF_OUT=/tmp/seedout/$PID ./vcheck "$PID" --tier "$TIER" "$@"
 rc=$?
